@@ -72,6 +72,10 @@ CHECKS = {
             "Held on all generated graft / merge / insert / single-node / subtree / clone cases and twin histories; sampled.",
             "path sums to 1e-9 relative; Merge's new root branches unasserted. " + BASE_NOTE,
             "DESIGN.md §5 C15"),
+    "C16": ("structure walker + index monitor on the tree exactly as the generator returned it (no re-indexing), shape predicates on the reference model, complete enumeration check of AllTopologies (count = (2n-5)!!/(2n-3)!!, all canonical forms distinct); library and gotree generate",
+            "Held on every sampled (generator, size, rootedness, seed) incl. all sizes -1..64 and below-minimum sizes; the topology enumerator is checked exhaustively per n (n <= 8 unrooted / 7 rooted, one more in thorough).",
+            "valid sizes as stated in the evidence assumptions (2 tips: an error is the expected answer for binary generators). " + BASE_NOTE,
+            "DESIGN.md §5 C16"),
 }
 
 PENDING = {}
